@@ -52,6 +52,32 @@ def judge(feats: Sequence[str], cfg: Sequence[str], res: Dict[str, Any]) -> None
             res['samples'].append({'features': list(feats), 'config': list(cfg), 'pages': len(pages), 'links_followed': nlinks})
 
 
+PAGE_NAMES = ['index', 'nameIndex', 'classIndex', 'moduleIndex', 'undoccedSummary', 'all-documents', 'apidocs']
+
+
+def judge_root_named(name: str, shape: str, res: Dict[str, Any]) -> None:
+    """a project whose ONLY root is a module / package named like a page pydoctor writes itself: still no dead link"""
+    body = '"""Doc."""\nclass A:\n    "a"\n    def m(self): "L{A}"\nclass B(A):\n    "b"\ndef f(): "L{B}"\n'
+    if shape == 'module':
+        files, roots = {f'{name}.py': body}, [f'{name}.py']
+    else:
+        files, roots = {f'{name}/__init__.py': body, f'{name}/sub.py': 'from . import A\nclass C(A):\n    "c"\n'}, [name]
+    case = {'kind': 'root-named', 'name': name, 'shape': shape}
+    res['evals'] += 1
+    with pd.cli_run(files, ['-q'], roots=roots, keep_system=True) as r:
+        if r.exc or r.status not in (0, 2, 3) or r.system is None:
+            res['violations'].append(core.violation(f'run-failed/{r.exc_type}@{r.exc_site}', f'driver failed for single root {shape} {name}: {r.exc_type} status={r.status}', case))
+            return
+        pages = site.parse_pages(str(r.out))
+        res['nontrivial'].add(core.h('root-named', name, shape))
+        seen = set()
+        for sig, what in site.crawl(str(r.out), r.system, pages):
+            if sig in seen:
+                continue
+            seen.add(sig)
+            res['violations'].append(core.violation(site.sigstr(sig) + f'/single-root-{shape}-named-like-a-page', f'single root {shape} named {name}: {what}', case))
+
+
 def hideable_containers(feats: Sequence[str]) -> List[str]:
     from pydoctor import model
     with site.run(feats) as r:
@@ -71,6 +97,7 @@ def jobs(tier: str) -> Iterable[Tuple[str, Any]]:
     for f in site.NAMES:
         if f != 'many-mods':
             yield ('singles:each-module-or-root-hidden', ('hidden', f))
+    yield ('single-root-named-like-a-page', ('rootnamed',))
     for f in site.NAMES:
         yield ('pairs:default-config', ('pairs', f, [[]]))
     if tier == 'thorough':
@@ -85,6 +112,10 @@ def run_job(job: Any, tier: str) -> Dict[str, Any]:
     if job[0] == 'single':
         for cfg in site.CONFIGS:
             judge([job[1]], cfg, res)
+    elif job[0] == 'rootnamed':
+        for name in PAGE_NAMES:
+            for shape in ('module', 'package'):
+                judge_root_named(name, shape, res)
     elif job[0] == 'hidden':
         # a site with one module, package or root hidden is still a site: what is left has no dead links, and the start page exists
         for name in hideable_containers([job[1]]):
@@ -105,5 +136,8 @@ def run_job(job: Any, tier: str) -> Dict[str, Any]:
 
 def replay(case: Dict[str, Any]) -> List[Dict[str, Any]]:
     res = core.result()
-    judge(case['feats'], case['cfg'], res)
+    if case['kind'] == 'root-named':
+        judge_root_named(case['name'], case['shape'], res)
+    else:
+        judge(case['feats'], case['cfg'], res)
     return res['violations']
